@@ -535,9 +535,17 @@ impl<Writer: Write> Mp4Writer<Writer> {
                 return Err(Mp4WriterError::FirstFrameMustBeKeyframe);
             }
             // Extract codec configuration based on video codec type
+            // avcC / hvcC store each parameter set behind a 16-bit length. A set that does
+            // not fit cannot be carried (its length used to be truncated with 'as u16', which
+            // corrupted the record): treat the frame as lacking a usable configuration.
+            let fits = |set: &[u8]| set.len() <= usize::from(u16::MAX);
             let config = match self.video_codec {
-                VideoCodec::H264 => extract_avc_config(data).map(VideoConfig::Avc),
-                VideoCodec::H265 => extract_hevc_config(data).map(VideoConfig::Hevc),
+                VideoCodec::H264 => extract_avc_config(data)
+                    .filter(|c| fits(&c.sps) && fits(&c.pps))
+                    .map(VideoConfig::Avc),
+                VideoCodec::H265 => extract_hevc_config(data)
+                    .filter(|c| fits(&c.vps) && fits(&c.sps) && fits(&c.pps))
+                    .map(VideoConfig::Hevc),
                 VideoCodec::Av1 => extract_av1_config(data).map(VideoConfig::Av1),
                 VideoCodec::Vp9 => extract_vp9_config(data).map(VideoConfig::Vp9),
             };
